@@ -183,32 +183,6 @@ __attribute__((noinline)) void DoCall(int entry, const char *data, size_t len,
       } else {
         g_pc.reset(new draco::PointCloud());
       }
-      // Half of the streams (chosen by their content, so that a replay makes
-      // the same choice) meet an object that already holds a small geometry
-      // from an earlier use: three points with a POSITION attribute (and a
-      // face).
-      {
-        Hasher hp;
-        hp.Bytes(data, len < 64 ? len : 64);
-        if (hp.Digest() & 1) {
-          draco::PointCloud *pc = mesh ? g_mesh.get() : g_pc.get();
-          pc->set_num_points(3);
-          draco::GeometryAttribute ga;
-          ga.Init(draco::GeometryAttribute::POSITION, nullptr, 3, draco::DT_FLOAT32,
-                  false, 12, 0);
-          const int id = pc->AddAttribute(ga, true, 3);
-          const float v[3][3] = {{0, 0, 0}, {1, 0, 0}, {0, 1, 0}};
-          for (int i = 0; i < 3; ++i)
-            pc->attribute(id)->SetAttributeValue(draco::AttributeValueIndex(i), v[i]);
-          if (mesh) {
-            draco::Mesh::Face f;
-            f[0] = draco::PointIndex(0);
-            f[1] = draco::PointIndex(1);
-            f[2] = draco::PointIndex(2);
-            g_mesh->AddFace(f);
-          }
-        }
-      }
       for (int k = 0; k < 2; ++k) {
         draco::DecoderBuffer b2;
         b2.Init(data, len);
